@@ -13,16 +13,21 @@
 (***************************************************************************)
 EXTENDS D42Substitute, D42SchemaUniverse
 
-CONSTANTS Depth, Types, ContainerSet
+CONSTANTS Depth, Types, ContainerSet,
+          SeedTapes     \* the tapes under which seed values are generated
 
 VARIABLES s, src, chain, phase, seed, v, r
 
 vars == <<s, src, chain, phase, seed, v, r>>
 
+QuickSeedTapes == {<<"lo">>, <<"hi">>}
+AllSeedTapes == ConstTapes
+
 NoR == [ok |-> FALSE, exc |-> "none"]
 
 Universe == CASE ContainerSet = "none" -> {}
-              [] ContainerSet = "level1" -> Level1 \cup Wrapped \cup Focus
+              [] ContainerSet = "level1" -> ListsOver({SInt05, SStrAB}, {SInt1, SStrAlpha}) \cup DictsOver(CompSmall)
+                                            \cup AnysOver(CompSmall) \cup Wrapped \cup Focus
               [] ContainerSet = "all" -> Containers
 
 Init == /\ \/ src = "dsl" /\ s \in {Bare(t) : t \in Types}
@@ -44,12 +49,19 @@ Observe(t) ==
   /\ UNCHANGED <<s, src, chain, v, r>>
 
 \* replacement set for substitution values: unrelated plain values and an unconvertible one
-SubRepl == Unrelated \cup {VObj("tuple12", <<>>, NoneOpt)}
+SubRepl == Unrelated \cup
+           { VObj("tuple12", <<>>, NoneOpt),
+             VDict(<<KV(VStr(<<122, 122>>), VNone)>>),                          \* only an undeclared key
+             VList(<<VObj("tuple12", <<>>, NoneOpt)>>),                         \* unconvertible member one level down
+             VDict(<<KV(VStr(<<122, 122>>), VList(<<VObj("tuple12", <<>>, NoneOpt)>>))>>) }
 
 \* values sitting exactly on a declared numeric bound (where tolerance and bounds meet)
 BoundValues == IF s.t \in {"int", "float"}
                THEN (IF IsSome(s.min) THEN {Get(s.min)} ELSE {}) \cup (IF IsSome(s.max) THEN {Get(s.max)} ELSE {})
                ELSE {}
+
+\* a list seed with one more member, of every replacement kind (members outside a matched window)
+Appended == IF seed.k = "list" THEN {VList(Append(seed.items, x)) : x \in SubRepl} ELSE {}
 
 Substitute(x) ==
   /\ phase = "seeded"
@@ -59,8 +71,8 @@ Substitute(x) ==
   /\ UNCHANGED <<s, src, chain, seed>>
 
 Next == \/ phase = "build" /\ src = "dsl" /\ \E c \in Calls(s.t) : Declare(c)
-        \/ \E t \in ConstTapes : Observe(t)
-        \/ phase = "seeded" /\ \E x \in {seed} \cup Mutants(seed, SubRepl, ExtraKeys) \cup BoundValues : Substitute(x)
+        \/ \E t \in SeedTapes : Observe(t)
+        \/ phase = "seeded" /\ \E x \in {seed} \cup Mutants(seed, SubRepl, ExtraKeys) \cup BoundValues \cup Appended : Substitute(x)
 
 View == <<s, phase, IF phase = "seeded" THEN seed ELSE v>>
 
